@@ -386,6 +386,12 @@ def _clamp_word(facts, tr, rep, word, lo, hi):
                 return (ev(args[0], ctx, depth + 1)[0] and nm == "saturating_add", False)
             if nm in ("saturating_sub",) and args:
                 return (False, ev(args[0], ctx, depth + 1)[1])
+            hb = tr.local_sync_callee(node)
+            if hb is not None and depth < 20:
+                with tr.bound(hb, node):
+                    rs = [ev(r, ctx, depth + 1) for r in tr.helper_returns(hb)]
+                if rs:
+                    return (all(r[0] for r in rs), all(r[1] for r in rs))
             return (False, False)
         if k == "binop":
             op = node[1]
